@@ -35,8 +35,9 @@ EXTENDS Naturals, Sequences, FiniteSets, TLC
 CONSTANTS Keys,       \* set of key ids (positive integers)
           NB,         \* number of buckets
           BucketOf,   \* function Keys -> 0 .. NB-1
-          NG,         \* generations per key: 1 .. NG
-          GenTs,      \* function 1 .. NG -> timestamp of the generation
+          GensOf,     \* function Keys -> set of generation ids (positive) of that key
+          GenTs,      \* function generation id -> timestamp of the generation
+          Watch,      \* keys whose remove history is kept (RemoveThenMiss); Keys in general
           Sizes,      \* entry sizes an Insert may ask for
           WMs,        \* set of <<high, low>> watermark pairs SetWM may choose
           WM0         \* initial watermark pair
@@ -46,7 +47,7 @@ VARIABLES bk, hand, mem, high, low, gst, rm, last
 cvars == <<bk, hand, mem, high, low, gst, rm, last>>
 
 Buckets == 0 .. (NB - 1)
-Gens == 1 .. NG
+TagsOf(k) == {0} \cup GensOf[k]
 
 (* ------------------------------ helpers -------------------------------- *)
 RECURSIVE FlatFrom(_, _)
@@ -98,16 +99,23 @@ CanReplace(k, cached, incoming) ==
 Init == /\ bk = [b \in Buckets |-> <<>>]
         /\ hand = 0 /\ mem = 0
         /\ high = WM0[1] /\ low = WM0[2]
-        /\ gst = [k \in Keys |-> [g \in Gens |-> "live"]]
+        /\ gst = [k \in Keys |-> [g \in GensOf[k] |-> "live"]]
         /\ rm = [k \in Keys |-> <<FALSE, {}>>]
         /\ last = <<"init", 0, 0, 0, "ok", 0>>
+
+(* history of explicit removes (RemoveThenMiss); shared with TraceCache *)
+RmAfterInsert(k) == [rm EXCEPT ![k] = <<FALSE, {}>>]      \* any Insert call discharges
+RmAfterRemove(k, g) ==
+  [rm EXCEPT ![k] = IF k \notin Watch THEN rm[k]
+                    ELSE IF g = 0 THEN <<TRUE, {}>>
+                    ELSE IF rm[k][1] THEN rm[k] ELSE <<FALSE, rm[k][2] \cup {g}>>]
 
 Usable(k, g) == IF g = 0 THEN TRUE ELSE gst[k][g] # "dropped"   \* a call needs an Arc
 
 Insert(k, t, sz) ==
   /\ Usable(k, t)
   /\ UNCHANGED <<high, low, gst>>
-  /\ rm' = [rm EXCEPT ![k] = <<FALSE, {}>>]
+  /\ rm' = RmAfterInsert(k)
   /\ IF sz > high \div 4
      THEN /\ UNCHANGED <<bk, hand, mem>>              \* "don't cache very large values"
           /\ last' = <<"insert", k, t, sz, "toolarge", 0>>
@@ -144,8 +152,7 @@ Get(k, g) ==
 Remove(k, g) ==
   /\ Usable(k, g)
   /\ UNCHANGED <<hand, high, low, gst>>
-  /\ rm' = [rm EXCEPT ![k] = IF g = 0 THEN <<TRUE, {}>>
-                             ELSE IF rm[k][1] THEN rm[k] ELSE <<FALSE, rm[k][2] \cup {g}>>]
+  /\ rm' = RmAfterRemove(k, g)
   /\ LET b   == BucketOf[k]
          row == bk[b]
          idx == {i \in DOMAIN row : row[i].k = k /\ (g = 0 \/ row[i].g = g)}
@@ -188,11 +195,11 @@ DropGen(k, g) ==
   /\ UNCHANGED <<bk, hand, mem, high, low, rm>>
   /\ last' = <<"dropgen", k, g, 0, "ok", 0>>
 
-Next == \/ \E k \in Keys, t \in 0 .. NG, sz \in Sizes : Insert(k, t, sz)
-        \/ \E k \in Keys, g \in 0 .. NG : Get(k, g) \/ Remove(k, g)
+Next == \/ \E k \in Keys : \E t \in TagsOf(k), sz \in Sizes : Insert(k, t, sz)
+        \/ \E k \in Keys : \E g \in TagsOf(k) : Get(k, g) \/ Remove(k, g)
         \/ Evict \/ Clear
         \/ \E w \in WMs : SetWM(w[1], w[2])
-        \/ \E k \in Keys, g \in Gens : Retire(k, g) \/ DropGen(k, g)
+        \/ \E k \in Keys : \E g \in GensOf[k] : Retire(k, g) \/ DropGen(k, g)
 
 Spec == Init /\ [][Next]_cvars
 
@@ -280,5 +287,5 @@ RemovedAbsent == \A i \in DOMAIN Flat(bk) : ~Absent(Flat(bk)[i].k, Flat(bk)[i].g
 TypeOK == /\ hand \in Buckets /\ mem \in Nat /\ low <= high
           /\ \A b \in Buckets : \A i \in DOMAIN bk[b] :
                /\ bk[b][i].k \in Keys /\ BucketOf[bk[b][i].k] = b
-               /\ bk[b][i].g \in 0 .. NG /\ bk[b][i].ref \in BOOLEAN
+               /\ bk[b][i].g \in TagsOf(bk[b][i].k) /\ bk[b][i].ref \in BOOLEAN
 =============================================================================
